@@ -4,6 +4,7 @@ package main
 // See DESIGN.md §3.2/§3.3. One Gen per (function, pass).
 
 import (
+	"os"
 	"fmt"
 	"go/constant"
 	"go/token"
@@ -844,6 +845,9 @@ func (g *Gen) analyzeCFG() {
 	sort.SliceStable(rets, func(i, j int) bool { return rets[i].Pos() < rets[j].Pos() })
 	for i, r := range rets {
 		g.retOrdinal[r] = i + 1
+		if os.Getenv("VERIF_DEBUG_RETS") != "" {
+			fmt.Fprintf(os.Stderr, "ret%d of %s: block %d at %s\n", i+1, g.fnLabel(), r.Block().Index, g.c.fset.Position(r.Pos()))
+		}
 	}
 	// escape analysis for allocs
 	g.escape = map[*ssa.Alloc]bool{}
